@@ -69,6 +69,12 @@ def prepare_scratch(repo, scratch):
                     f.write("\n" + open(os.path.join(cdir, fn)).read())
                 log["appended"].append(rel)
     check_add_only(repo, scratch)
+    # never let cargo reuse an artifact that was built from another scratch copy
+    now = time.time()
+    for root, _, files in os.walk(scratch):
+        for fn in files:
+            if fn.endswith(".rs") or fn == "Cargo.toml":
+                os.utime(os.path.join(root, fn), (now, now))
     return log
 
 
